@@ -1,12 +1,18 @@
 """C38 — groupby results equal pandas groupby.
 
 Model:    lean/DaskModel/Model/Groupby.lean (per-partition partial aggregate `chunk`, key-wise monoid merge
-          `combine`, `treeReduce` with split_every, `shuffleReduce` for split_out > 1)
+          `combine`, `treeReduce` with split_every, list-level shuffle `shuffleOut`/`partialRows`, `nunique`,
+          `idxCurrent` + arg-min monoid, cumulative finalizer `cumDask`, `treeLevels`)
 Theorems: lean/DaskModel/Props/C38.lean
-Tie:      API level: groupby aggregations on random frames / partitionings / split_every / split_out /
-          shuffle_method / sort vs the Lean model (exact, integer-valued data) and vs pandas; list/dict/named
-          aggregations, several keys, index and series keys, NA and categorical keys, nunique/idxmin/idxmax/
-          var/std/cov/corr, cumulative ops, transform/shift/ffill/bfill, value_counts vs pandas.
+Tie:      function level: `_cum_agg_filled`, `_cum_agg_aligned` vs cumFilled/cumAligned; the batches of every level of
+          `TreeReduce._layer` vs treeLevels; extracted tables GroupbyAggs (chunk/aggregate pair of every SingleAggregation)
+          and GroupbyCums (chunk/aggregate/initial of every GroupByCumulative) pinned by theorems.
+          API level: aggregations (sum/count/size/min/max/first/last/mean/var with ddof) on random frames / partitionings /
+          split_every / split_out / shuffle_method / sort vs the Lean model (exact, integer-valued data) and vs pandas;
+          nunique, idxmin/idxmax (dask == the model of the code AS IT IS, pandas == the arg-min specification), cumsum/
+          cumprod/cumcount vs their Lean models and pandas; list/dict/named aggregations, several keys, index and series
+          keys, str/NaN/categorical keys (dropna, observed), std, cov/corr, transform/shift/ffill/bfill/apply/median,
+          value_counts vs pandas only.
 
 Known findings: every signature below is COMPUTED from the input class and the observed symptom, and the symptom is
 verified against an executable description of the defect (e.g. "the result is pandas' result with every category
@@ -27,22 +33,40 @@ DRIVER = "dm_dfpart"
 LEAN_MODULES = ["DaskModel.Props.C38"]
 TABLES = ["GroupbyAggs", "GroupbyCums"]
 CASE_TIMEOUT_S = 90
-ASSUMPTIONS = ["pandas groupby kernels on one partition (chunk) and on the concatenated partials (combine/aggregate) are the "
-               "oracle-checked atoms; the model fixes only their algebra (what is folded, in which order)",
-               "hash of a group key is a function of the key (colocation, C40)"]
-LEVEL_TEXT = ("Lean 4 theorems: groupby_agg_eq_global (for every partitioning, every split_every >= 1 and every associative "
-              "merge, the tree reduction of the per-partition partial aggregates equals the whole-frame aggregate group by "
-              "group, values folded in row order), groupby_shuffle_eq_global (split_out > 1 with an order-preserving "
-              "shuffle: each group is aggregated exactly once, in partition h(key) % n, to the global value), "
-              "commutative_arrival_order_irrelevant (sum/count/min/max/mean/var are insensitive to the arrival order of "
-              "the partials, so any shuffle method works), associativity of the first/last/min/max/(sum,count)/(n,sum,sumsq) "
-              "merges, groupby_first; disk_first_refuted (first/last ARE order sensitive: with the disk shuffle they can be "
-              "wrong - known finding). VALIDATED against pandas: list/dict/named agg specs, several keys, index/series keys, "
-              "NA keys with dropna, categorical keys with observed, nunique, idxmin/idxmax, std, cov/corr, cumulative ops, "
-              "transform/shift/ffill/bfill, value_counts, sort in {True, False, None}.")
-LEVEL_NOTE = ("Trusted: Lean kernel + standard axioms; pandas groupby kernels; float rounding (mean/var compared within "
-              "1e-9; the model is exact on integer-valued data); the partd disk shuffle does not keep arrival order.")
-TECHNIQUE = "Lean 4 proof (keyed monoid homomorphism, tree = flat) + differential correspondence against the model and pandas"
+ASSUMPTIONS = ["pandas' groupby kernels on ONE partition (sum/min/first/idxmin/cumsum/unique/... of the groups of a frame) and on the "
+               "concatenated partials are the atoms: the model fixes only the algebra around them (what is folded, in which "
+               "order, what is carried between partitions); their behaviour is checked against pandas on the whole frame by the "
+               "correspondence runs, not proved",
+               "the hash that routes a group key to an output partition is a function of the key (colocation, C40); the task "
+               "shuffle keeps the source order of the pieces (C40 simple_shuffle_exact), the disk shuffle does not",
+               "integer-valued data in the Lean diffs (the model is exact there); float results are compared within 1e-9",
+               "NaN / categorical group keys (dropna, observed) and multi-key / index / series groupers are outside the model"]
+TRUSTED = ["pandas (reference oracle AND per-partition kernel)", "the pyarrow import stub of harness/core.import_dd (pandas-backed strings)"]
+LEVEL_TEXT = ("PROVED in Lean 4 for every frame, partitioning, split_every >= 1 and hash function (model: Model/Groupby.lean): "
+              "groupby_agg_eq_global (tree reduction of the per-partition partials = whole-frame aggregate for every associative "
+              "merge: sum/prod/min/max/first/last/count/size and the (sum,n) / (n,sum,sumsq) states of mean/var/std), "
+              "groupby_shuffle_rows_eq_global + shuffle_group_rows (split_out > 1 at list level: partial rows split by "
+              "h(key) % n, pieces in source order: every group is aggregated once, in one partition, to the whole-frame value; the "
+              "apply family sees every group complete and in frame order), commutative_arrival_order_irrelevant vs "
+              "disk_first_refuted (first/last are arrival-order sensitive: known finding with the disk shuffle), "
+              "var_from_moments (over Q: (sumsq - sum^2/n)/(n - ddof) is the two-pass variance) with mean/var_state_is_moments, "
+              "nunique_eq_global (drop_duplicates chunk, unique().explode() tree, nunique() root = distinct non-NA values of the "
+              "frame), cumulative_eq_global (cum_raw + carried cum_last through _cum_agg_filled/_cum_agg_aligned = whole-frame "
+              "scan; instances cumsum/cumprod/cumcount pinned to the extracted class table), groupby_idxmin/idxmax_spec + "
+              "argmin_is_minimum (the (value, label) arg-min monoid is partition independent) but idx_current_is_first_partial / "
+              "idx_current_refuted: dask's (idxmin, first) pair returns the arg-min of the first partition holding the group "
+              "(known finding; the tie checks that dask equals THIS model exactly). VALIDATED ONLY (against pandas, no theorem): "
+              "list/dict/named agg specs, several keys, index/series keys, NaN keys with dropna, categorical keys with observed, "
+              "std as sqrt, cov/corr, value_counts, transform/shift/ffill/bfill/apply/median per-group functions, sort in "
+              "{True, False, None}. 10 recorded findings (root causes), each recognised only by a verified symptom.")
+LEVEL_NOTE = ("Trusted: Lean kernel + propext/Classical.choice/Quot.sound; pandas kernels on one partition (see ASSUMPTIONS); float "
+              "rounding (mean/var compared within 1e-9, exact on integer data); the hash function is abstract. The tie is "
+              "function level for _cum_agg_filled, _cum_agg_aligned, TreeReduce._layer (batch sizes of every level) and the two "
+              "extracted class tables, API level (dask vs Lean model vs pandas) for the aggregations, nunique, idxmin/idxmax and "
+              "the cumulative operations on int keys; everything else is API level against pandas only.")
+TECHNIQUE = ("Lean 4 proof (keyed monoid homomorphism: tree = flat = whole frame; set-union invariant for nunique; scan with carried "
+             "state for cumulative ops; exact rationals for var) + AST-extracted class tables + differential correspondence "
+             "against the model and pandas, known findings recognised by executable defect descriptions")
 
 AGGS = ["sum", "count", "size", "min", "max", "first", "last", "mean", "var"]
 
@@ -254,17 +278,20 @@ def case_agg_model(ctx, inp):
     kw = _kw(inp)
     gkw = _gbkw(inp)
 
+    ddof = inp.get("ddof", 1) if agg == "var" else None
+    extra = {} if ddof is None else {"ddof": ddof}
+
     def run(kw):
         with dask.config.set(scheduler="sync"):
             gb = d.groupby("c", **gkw)
-            return (gb.size(**kw) if agg == "size" else getattr(gb.a, agg)(**kw)).compute()
+            return (gb.size(**kw) if agg == "size" else getattr(gb.a, agg)(**extra, **kw)).compute()
     try:
         got = run(kw)
     except Exception as e:  # noqa: BLE001
         ctx.fail(f"groupby.{agg} raised: " + U.exc_name(e), observed=U.exc_name(e))
         return
     pgb = df.groupby("c", **gkw)
-    exp = pgb.size() if agg == "size" else getattr(pgb.a, agg)()
+    exp = pgb.size() if agg == "size" else getattr(pgb.a, agg)(**extra)
     why = _same(got, exp)
     sig = None
     if why and _order_sensitive_disk(inp, agg):
@@ -287,11 +314,11 @@ def case_agg_model(ctx, inp):
         if agg == "mean":
             mm[k] = None if row[1] is None or row[2] == 0 else row[1] / row[2]
         elif agg == "var":
-            if row[1] is None or row[1] < 2:
-                mm[k] = None
+            if row[1] is None or row[1] - ddof <= 0:
+                mm[k] = None            # _var_agg: (n - ddof) == 0 -> NaN; n - ddof < 0 -> 0/0
             else:
                 c, s, q = row[1], row[2], row[3]
-                mm[k] = (q - s * s / c) / (c - 1)
+                mm[k] = (q - s * s / c) / (c - ddof)    # Props/C38.lean var_from_moments: the two-pass value
         else:
             mm[k] = row[1]
     gg = {int(k): (None if v != v else float(v)) for k, v in got.items()}
@@ -703,6 +730,8 @@ def _gen_agg_model(ctx):
     for _ in range(ctx.n(200, 2000)):
         inp = _rand_cfg(rng, _rand_frame(rng))
         inp["agg"] = rng.choice(AGGS)
+        if inp["agg"] == "var":
+            inp["ddof"] = rng.choice([1, 1, 0, 2])
         yield "agg_model", inp
 
 
@@ -776,6 +805,21 @@ def _gen_misc(ctx):
         yield "misc", inp
 
 
+def _gen_modelled_ops(ctx):
+    """operations with a Lean model of their own on int keys: few groups that span several (also empty) partitions"""
+    rng = ctx.rng
+    for _ in range(ctx.n(60, 600)):
+        inp = _rand_frame(rng, "int")
+        n = len(inp["c"])
+        inp["c"] = [rng.randint(0, rng.choice([1, 2, 4])) for _ in range(n)]
+        inp["cuts"] = U.rand_cuts(rng, n, maxparts=rng.choice([2, 4, 7]), p_empty=0.3)
+        inp["op"] = rng.choice(["nunique", "nunique", "idxmin", "idxmax", "idxmin_a", "idxmax_a"])
+        _rand_cfg(rng, inp)
+        if rng.random() < 0.6:
+            inp["split_out"] = rng.choice([None, 1])       # tree path: dask must equal the model of the code as it is
+        yield "misc", inp
+
+
 def _gen_function_level(ctx):
     rng = ctx.rng
     if ctx.thorough():
@@ -825,5 +869,5 @@ def _interleave(gens):
 
 
 def generate(ctx):
-    yield from _interleave([(_gen_function_level(ctx), 2), (_gen_exhaustive(ctx), 2), (_gen_agg_model(ctx), 3), (_gen_agg_keys(ctx), 1), (_gen_agg_spec(ctx), 1),
+    yield from _interleave([(_gen_function_level(ctx), 2), (_gen_exhaustive(ctx), 2), (_gen_modelled_ops(ctx), 1), (_gen_agg_model(ctx), 3), (_gen_agg_keys(ctx), 1), (_gen_agg_spec(ctx), 1),
                             (_gen_cumulative(ctx), 1), (_gen_misc(ctx), 2)])
